@@ -30,6 +30,7 @@ func relRules(c *Ctx) {
 		"CombineContext": "the de-registration hook lives as long as the result context (one-way transition, documented)",
 	}
 	nCancel, nTimer, nAfter := 0, 0, 0
+	nDiscard := map[*ssa.Function]int{}
 	for _, fn := range P.Funcs {
 		q := &fq{c: c, fn: fn, name: an.FuncName(fn)}
 		for _, wc := range append(append(P.CallsTo(fn, "context.WithCancel"), P.CallsTo(fn, "context.WithTimeout")...), P.CallsTo(fn, "context.WithDeadline")...) {
@@ -222,6 +223,27 @@ func relRules(c *Ctx) {
 				continue
 			}
 			why, listed := discards[an.FuncName(fn)]
+			if listed {
+				// the documented discard is one particular registration: in ChainAfterFunc the hook on the primary (first
+				// parameter), in CombineContext the hook on the derived result; a second discard, or a discard of the hook on
+				// the other context, is not covered
+				nDiscard[fn]++
+				on := callArg(af, 0)
+				switch an.FuncName(fn) {
+				case "ChainAfterFunc":
+					listed = len(fn.Params) > 0 && srcIs(P, on, fn.Params[0])
+				case "CombineContext":
+					listed = false
+					for _, sv := range P.Sources(on) {
+						if P.IsCallResult(sv, "context.WithCancel", 0) {
+							listed = true
+						}
+					}
+				}
+				if nDiscard[fn] > 1 {
+					listed = false
+				}
+			}
 			q.add("REL", "an AfterFunc registration's stop function is kept", listed, pickS(listed, "confirmed discard: "+why, "the stop function of an AfterFunc registration is discarded: the hook (and what it references) stays registered until that context ends"), af)
 		}
 	}
